@@ -41,6 +41,11 @@ def gen_cases(tier, seed):
     n = {'quick': 560, 'thorough': 14000}[tier]
     for i in range(n):
         yield {'family': FAMILIES[i % len(FAMILIES)], 'idx': i, 'seed': seed}
+    # every type pairing of 'join into a field the target already has', and the non-adjacent concatenate selection forms
+    for k in range(4):
+        yield {'family': 'matrix_misc', 'idx': 10 ** 6 + k, 'seed': seed, 'force_kind': 'join_into_existing_field', 'combo': k}
+    for k in range(3):
+        yield {'family': 'matrix_misc', 'idx': 10 ** 6 + 10 + k, 'seed': seed, 'force_kind': 'concatenate_nonadjacent', 'combo': k}
 
 
 TYPED = {
@@ -72,6 +77,7 @@ def run_case(case):
     env = dsl.Env('p')
     label = None
     schema_changing = True
+    may_refuse = False
     if fam == 'program':
         tables, specs, _ = dsl.gen_program(rng, allow=lambda o: o.name != 'user')
         mk = lambda e: dsl.build_all(tables, specs, e)   # noqa: E731
@@ -188,7 +194,9 @@ def run_case(case):
         kind = rng.choice(['concatenate', 'unpivot', 'set_type', 'find_replace', 'duplicate_alias', 'load_csv',
                            'twin_isolation', 'twin_isolation', 'rename_chain', 'multi_then_single',
                            'multi_then_single', 'pk_then_field_op', 'load_package_extract_missing',
-                           'set_type_two_positions', 'computed_chain_explicit_target'])
+                           'set_type_two_positions', 'computed_chain_explicit_target', 'concatenate_nonadjacent',
+                           'join_into_existing_field'])
+        kind = case.get('force_kind') or kind
         if kind == 'concatenate' and rng.random() < 0.4:
             # a required field that only ONE of the concatenated resources has
             a = [{'id': i, 'v': 'x%d' % i} for i in range(3)]
@@ -209,6 +217,32 @@ def run_case(case):
             mk = lambda e: [lab.source('a', fa, a), lab.source('b', fb, b),                    # noqa: E731
                             d.concatenate({'id': [], 'v': ['w'], 'extra': []}, target={'name': 'c', 'path': 'c.csv'})]
             label = 'concatenate/' + ftyp
+        elif kind == 'concatenate_nonadjacent':
+            # the selected resources are not neighbours: refused (documented), or every emitted row still fits the resource
+            # it is emitted under
+            a = [{'id': i, 'v': 'x%d' % i} for i in range(3)]
+            b = [{'bid': 100 + i, 'when': datetime.date(2020, 1, 1 + i)} for i in range(4)]
+            c_ = [{'id': 10 + i, 'v': 'y%d' % i} for i in range(2)]
+            fa = [{'name': 'id', 'type': 'integer'}, {'name': 'v', 'type': 'string'}]
+            fb = [{'name': 'bid', 'type': 'integer'}, {'name': 'when', 'type': 'date'}]
+            selr = [['a', 'c'], 'a|c', '[ac]'][case['combo']] if 'combo' in case else rng.choice([['a', 'c'], 'a|c', '[ac]'])
+            mk = lambda e: [lab.source('a', fa, a), lab.source('b', fb, b), lab.source('c', fa, c_),     # noqa: E731
+                            d.concatenate({'id': [], 'v': []}, target={'name': 'cat', 'path': 'cat.csv'}, resources=copy.deepcopy(selr))]
+            label = 'concatenate/nonadjacent_selection'
+            may_refuse = True
+        elif kind == 'join_into_existing_field':
+            # the joined values go into a field the target already has, declared with ANOTHER type: refused, or the rows fit
+            pairs_ = [('integer', 'number'), ('number', 'integer'), ('string', 'integer'), ('integer', 'integer')]
+            t_have, t_src = pairs_[case['combo']] if 'combo' in case else rng.choice(pairs_)
+            srcr = [{'k': i % 3, 'v': {'number': D('%d.5' % i), 'integer': i}[t_src]} for i in range(6)]
+            tgtr = [{'id': i, 'k': i % 4, 'have': {'integer': 7, 'number': D('7.25'), 'string': 'seven'}[t_have]} for i in range(5)]
+            sf_ = [{'name': 'k', 'type': 'integer'}, {'name': 'v', 'type': t_src}]
+            tf_ = [{'name': 'id', 'type': 'integer'}, {'name': 'k', 'type': 'integer'}, {'name': 'have', 'type': t_have}]
+            agg_ = rng.choice(['max', 'first', 'last', 'sum'])
+            mk = lambda e: [lab.source('src', sf_, srcr), lab.source('tgt', tf_, tgtr),                 # noqa: E731
+                            d.join('src', ['k'], 'tgt', ['k'], {'have': {'name': 'v', 'aggregate': agg_}})]
+            label = 'join/into_existing_field/%s<-%s' % (t_have, t_src)
+            may_refuse = t_have != t_src
         elif kind == 'computed_chain_explicit_target':
             # two computed fields of one call: the first declared with an explicit descriptor (number), the second computed
             # from it and an integer column
@@ -482,6 +516,10 @@ def run_case(case):
     plain = lab.run(mk(dsl.Env('a')))
     log = probes.Log()
     probed = lab.run(probes.interleave(mk(dsl.Env('b')), log))
+    if not plain.ok and may_refuse and isinstance(getattr(plain.exc, 'cause', plain.exc), (AssertionError, ValueError, TypeError)):
+        cov['op_x_type'][(label or 'program') + '/refused'] = 1
+        counters['boundaries_probed'] += 1
+        return dict(nontrivial=True, violations=viol, cov=cov, counters=counters, sample={'program': label})
     if not plain.ok:
         c = getattr(plain.exc, 'cause', plain.exc)
         add('pipeline_failed', 'well-typed pipeline failed: %s: %s' % (type(c).__name__, str(c)[:300]),
